@@ -8,6 +8,7 @@ import (
 	"strings"
 
 	"golang.org/x/tools/go/ssa"
+	"golang.org/x/tools/go/ssa/ssautil"
 )
 
 // MutWitness describes one write through memory reachable from a seed.
@@ -45,6 +46,10 @@ type MutAnalysis struct {
 	srcMemo  map[*ssa.Function]map[int]bool
 	srcKnown map[*ssa.Function]bool
 	srcBusy  map[*ssa.Function]bool
+
+	allFns     []*ssa.Function
+	freshMemo  map[string]bool
+	freshKnown map[string]bool
 }
 
 // NewMutAnalysis prepares the analysis.
@@ -313,6 +318,14 @@ func (m *MutAnalysis) Mutations(fn *ssa.Function, seeds []ssa.Value, chain []str
 					}
 				case *ssa.UnOp:
 					if x.Op == token.MUL {
+						// a field of a struct allocated here that, anywhere in the module, is
+						// only ever given storage created on the spot (make, a literal, nil)
+						// does not hold caller memory, whatever the struct's other fields hold
+						if fa, isFA := x.X.(*ssa.FieldAddr); isFA && !isD(x.X) && !isD(fa.X) {
+							if _, isAlloc := rootCell(x.X).(*ssa.Alloc); isAlloc && m.fieldOnlyFresh(fa) {
+								continue
+							}
+						}
 						if (isD(x.X) || cells[rootCell(x.X)]) && refLike(x.Type()) {
 							changed = mark(x, derived) || changed
 						}
@@ -809,4 +822,108 @@ func (m *MutAnalysis) resultSources(fn *ssa.Function) (map[int]bool, bool) {
 	m.srcKnown[fn] = known
 	delete(m.srcBusy, fn)
 	return m.srcMemo[fn], known
+}
+
+// fieldOnlyFresh reports whether the struct field addressed by fa (of an
+// unexported or exported struct type declared in the module) is, in every
+// function of the module, only ever assigned storage created at the point of
+// the assignment: make(...), a composite literal, new, or nil.  Such a field
+// cannot refer to memory of a caller.  Whole-struct stores copy fields
+// between values of the same type and do not change the answer.
+func (m *MutAnalysis) fieldOnlyFresh(fa *ssa.FieldAddr) bool {
+	pt, ok := fa.X.Type().Underlying().(*types.Pointer)
+	if !ok {
+		return false
+	}
+	named := NamedOf(pt.Elem())
+	st, isStruct := pt.Elem().Underlying().(*types.Struct)
+	if named == nil || !isStruct || named.Obj().Pkg() == nil || !strings.HasPrefix(named.Obj().Pkg().Path(), ModulePath) {
+		return false
+	}
+	if fa.Field >= st.NumFields() {
+		return false
+	}
+	fname := st.Field(fa.Field).Name()
+	key := named.Obj().Pkg().Path() + "." + named.Obj().Name() + "." + fname
+	if m.freshKnown == nil {
+		m.freshKnown = map[string]bool{}
+		m.freshMemo = map[string]bool{}
+	}
+	if m.freshKnown[key] {
+		return m.freshMemo[key]
+	}
+	m.freshKnown[key] = true
+	if m.allFns == nil {
+		for f := range ssautil.AllFunctions(m.S.Prog) {
+			m.allFns = append(m.allFns, f)
+		}
+	}
+	sameType := func(t types.Type) bool {
+		p, ok := t.Underlying().(*types.Pointer)
+		if !ok {
+			return false
+		}
+		n := NamedOf(p.Elem())
+		return n != nil && n.Obj().Pkg() == named.Obj().Pkg() && n.Obj().Name() == named.Obj().Name()
+	}
+	var fresh func(v ssa.Value, depth int) bool
+	fresh = func(v ssa.Value, depth int) bool {
+		if depth > 4 {
+			return false
+		}
+		switch x := v.(type) {
+		case *ssa.MakeMap, *ssa.MakeSlice, *ssa.MakeChan, *ssa.Alloc:
+			return true
+		case *ssa.Const:
+			return x.IsNil()
+		case *ssa.MakeInterface:
+			return fresh(x.X, depth+1)
+		case *ssa.ChangeType:
+			return fresh(x.X, depth+1)
+		case *ssa.Slice:
+			return fresh(x.X, depth+1)
+		case *ssa.Phi:
+			for _, e := range x.Edges {
+				if !fresh(e, depth+1) {
+					return false
+				}
+			}
+			return true
+		}
+		return false
+	}
+	res := true
+	seenStore := false
+	for _, f := range m.allFns {
+		if f.Pkg == nil || f.Pkg.Pkg == nil {
+			if f.Parent() == nil || f.Parent().Pkg == nil {
+				// instantiations of generic functions have no package of their own: use the origin's
+				if f.Origin() == nil || f.Origin().Pkg == nil || f.Origin().Pkg.Pkg != named.Obj().Pkg() {
+					continue
+				}
+			}
+		}
+		for _, b := range f.Blocks {
+			for _, ins := range b.Instrs {
+				st, ok := ins.(*ssa.Store)
+				if !ok {
+					continue
+				}
+				fa2, ok := st.Addr.(*ssa.FieldAddr)
+				if !ok || !sameType(fa2.X.Type()) {
+					continue
+				}
+				s2, ok := fa2.X.Type().Underlying().(*types.Pointer).Elem().Underlying().(*types.Struct)
+				if !ok || fa2.Field >= s2.NumFields() || s2.Field(fa2.Field).Name() != fname {
+					continue
+				}
+				seenStore = true
+				if !fresh(st.Val, 0) {
+					res = false
+				}
+			}
+		}
+	}
+	m.freshMemo[key] = res && seenStore
+	return res && seenStore
 }
